@@ -58,6 +58,28 @@ struct AssertsOff
   }
 };
 
+// Two internal assertions of STIR fire for legal inputs of this property although the code behind them computes the
+// right result (the property speaks about that result, not about the assertions):
+//  * ProjDataInfo::set_tof_mash_factor shrinks its TOF boundary tables with VectorWithOffset::grow(), whose assert()
+//    forbids shrinking; grow() is resize(), which shrinks correctly (every SSRB with num_tof_bins_to_combine > 1).
+//  * the four range assertions on diff_between_right_edges in overlap_interpolate.cxx carry the comment "+/-epsilon"
+//    but test without one; they fire on rounding noise of 1e-7 of a bin.
+// When exactly one of these fires, the call is repeated with the assertions off (= what a Release build executes) and
+// every oracle still applies to the result.  Any other assertion is reported.
+bool
+is_grow_shrinks_assertion(const stir_verif::AssertionFailure& e)
+{
+  const std::string what = e.what();
+  return what.find("VectorWithOffset.inl") != std::string::npos
+         && what.find("min_index <= this->get_min_index() && max_index >= this->get_max_index()") != std::string::npos;
+}
+bool
+is_overlap_interpolate_epsilon_assertion(const stir_verif::AssertionFailure& e)
+{
+  const std::string what = e.what();
+  return what.find("diff_between_right_edges") != std::string::npos && what.find("overlap_interpolate.cxx") != std::string::npos;
+}
+
 // =================================================================================================
 //                                             SSRB
 // =================================================================================================
@@ -175,15 +197,21 @@ check_ssrb(const json& c)
 
   // ---- output geometry (function under test no. 1) ---------------------------------------------
   shared_ptr<ProjDataInfo> out_pdi;
-  // Finding 1 (work/notes/C15_findings.md): ProjDataInfo::set_tof_mash_factor shrinks its TOF boundary tables with
-  // VectorWithOffset::grow(), whose assert() forbids shrinking: every SSRB with num_tof_bins_to_combine>1 aborts in a
-  // build with assertions, while a Release build does the right thing (grow() ends in resize()).  To keep searching
-  // behind it the assertions are switched off (= Release behaviour) around that one call, for ntof>1 only.
-  const bool asserts_off_for_tof = ntof > 1 && !no_exclude;
+  bool asserts_off_for_tof = false; // see is_grow_shrinks_assertion()
   try
     {
-      AssertsOff guard(asserts_off_for_tof);
-      out_pdi.reset(SSRB(*in_pdi, nseg, nviews, trim, max_in_seg, ntof));
+      try
+        {
+          out_pdi.reset(SSRB(*in_pdi, nseg, nviews, trim, max_in_seg, ntof));
+        }
+      catch (const stir_verif::AssertionFailure& e)
+        {
+          if (!(ntof > 1 && is_grow_shrinks_assertion(e)))
+            throw;
+          asserts_off_for_tof = true;
+          AssertsOff guard(true);
+          out_pdi.reset(SSRB(*in_pdi, nseg, nviews, trim, max_in_seg, ntof));
+        }
     }
   catch (const std::runtime_error& e)
     {
@@ -212,10 +240,7 @@ check_ssrb(const json& c)
   if (ntof > 1)
     stats().cls("ssrb: TOF bins combined");
   if (asserts_off_for_tof)
-    {
-      stats().cls("ssrb: assertions off while building the TOF-combined geometry (finding 1)");
-      ++stats().excluded_known;
-    }
+    stats().cls("ssrb: TOF-combined geometry built with assertions off (grow() used for shrinking)");
   if (trim > 0)
     stats().cls("ssrb: tangential trim > 0");
   if (trim < 0)
@@ -389,7 +414,7 @@ check_ssrb(const json& c)
         }
       } cleaner{ stem };
       {
-        AssertsOff guard(asserts_off_for_tof); // this overload builds the output geometry itself (finding 1)
+        AssertsOff guard(asserts_off_for_tof); // this overload builds the output geometry itself (same assertion as above)
         SSRB(stem, in_data, nseg, nviews, trim, false, max_in_seg, ntof);
       }
       shared_ptr<ProjData> back = ProjData::read_from_file(stem + ".hs");
@@ -924,68 +949,62 @@ check_zoom(const json& c)
       stats().cls("zoom: transaxial (2D-parameter) overloads");
       const float zxy = zooms.x();
       const int nxy = sizes.x();
-      // zoom_image(image, zoom, x_off, y_off, new_size) returns the input unchanged when
-      // zoom==1, offsets==0 and new_size==get_x_size() (zoom.cxx:284), also when the y size differs: see findings
-      const bool early_return = zxy == 1.F && offs.x() == 0.F && offs.y() == 0.F && nxy == vin.g.n(2);
-      const bool known_bad = early_return && vin.g.n(1) != vin.g.n(2);
-      if (known_bad && !no_exclude)
+      // zoom_image(image, zoom, x_off, y_off, new_size) returns the input unchanged when there is nothing to do
+      // (zoom==1, offsets==0 and new_size equal to both the x and the y size)
+      if (zxy == 1.F && offs.x() == 0.F && offs.y() == 0.F && nxy == vin.g.n(2) && vin.g.n(1) != vin.g.n(2))
+        stats().cls("zoom: transaxial overload, unit zoom, new size == x size != y size");
+      for (int o = 0; o < 3; ++o)
         {
-          stats().cls("zoom: excluded (non-square input, transaxial overload with nothing to do)");
-          ++stats().excluded_known;
-        }
-      else
-        for (int o = 0; o < 3; ++o)
-          {
-            const ZoomOptions opt(all_options[o]);
-            const CartesianCoordinate3D<float> z3(1.F, zxy, zxy), o3(0.F, offs.y(), offs.x());
-            const CartesianCoordinate3D<int> s3(vin.g.n(0), nxy, nxy);
-            const Img want = zoom_image(in, z3, o3, s3, opt);
-            const Vol vwant = vol_of(want);
-            const double SD = vin.maxabs() / (zf[1] * zf[2]) * (o == 0 ? 1. : (o == 1 ? zf[1] * zf[2] : zf[1]));
-            const Img d = zoom_image(in, zxy, offs.x(), offs.y(), nxy, opt);
-            VF_TRY(same_grid(grid_of(d), vwant.g, cat("zoom_image(image,zoom,x_off,y_off,size) (", option_names[o], ") grid vs 3D overload with zoom_z=1")));
-            // The 3D overload resamples z as well, with zoom_z = v_in/(v_in/1) and an offset from the recomputed origin, which
-            // are 1 and 0 only up to float rounding (STIR is compiled with -ffast-math): the two routes sample grids that
-            // differ by `shift` voxels, so they may differ by 2*shift*max; allowed: TOL_ROUTES + 8*shift.
-            const double shift_d = grid_shift(grid_of(d), vwant.g) + grid_shift(vwant.g, vin.g, true, false, false);
-            const double tol_d = TOL_ROUTES + 8 * shift_d;
-            stats().maxi("zoom: max allowed rel diff transaxial overloads vs 3D overload", tol_d);
-            if (same_index_range(grid_of(d), vwant.g))
-              {
-                const Vol vd = vol_of(d);
-                double worst = 0;
-                for (std::size_t i = 0; i < vd.d.size(); ++i)
-                  worst = std::max(worst, std::fabs(vd.d[i] - vwant.d[i]));
-                stats().maxi("zoom: max (observed / allowed) transaxial overloads vs 3D overload", worst / std::max(std::max(vwant.maxabs(), SD), 1e-30) / tol_d);
-              }
-            VF_TRY(same_values(vol_of(d), vwant, tol_d, cat("zoom_image(image,zoom,x_off,y_off,size) (", option_names[o], ") vs 3D overload with zoom_z=1"),
-                               "zoom: max rel diff transaxial overloads vs 3D overload", SD));
-            Img dip(in);
-            zoom_image_in_place(dip, zxy, offs.x(), offs.y(), nxy, opt);
-            VF_TRY(same_grid(grid_of(dip), vwant.g, cat("zoom_image_in_place(image,zoom,x_off,y_off,size) (", option_names[o], ") grid")));
-            VF_TRY(same_values(vol_of(dip), vwant, tol_d, cat("zoom_image_in_place(image,zoom,x_off,y_off,size) (", option_names[o], ") vs 3D overload"),
-                               "zoom: max rel diff transaxial overloads vs 3D overload", SD));
-            // E1: xy with the transaxial overload, then z with the 3D in-place overload, vs one 3D call
-            Img two(dip);
-            zoom_image_in_place(two, CartesianCoordinate3D<float>(zooms.z(), 1.F, 1.F), CartesianCoordinate3D<float>(offs.z(), 0.F, 0.F),
-                                CartesianCoordinate3D<int>(sizes.z(), nxy, nxy), opt);
-            VF_TRY(same_grid(grid_of(two), gout, cat("two steps (transaxial overload then z) (", option_names[o], ") grid vs one call")));
-            // the grids of the two routes agree only up to float rounding of the recomputed origins and voxel sizes, and the
-            // second step resamples x,y once more at zoom 1 +- rounding: allowed TOL_ROUTES + 8*(shift in voxels)
-            const double shift_e = grid_shift(grid_of(two), gout) + grid_shift(grid_of(dip), grid_of(two), false, true, true)
-                                   + grid_shift(grid_of(dip), vin.g, true, false, false);
-            const double tol_e = TOL_ROUTES + 8 * shift_e;
-            stats().maxi("zoom: max allowed rel diff two-step (parameter overloads) vs one call", tol_e);
+          const ZoomOptions opt(all_options[o]);
+          const CartesianCoordinate3D<float> z3(1.F, zxy, zxy), o3(0.F, offs.y(), offs.x());
+          const CartesianCoordinate3D<int> s3(vin.g.n(0), nxy, nxy);
+          const Img want = zoom_image(in, z3, o3, s3, opt);
+          const Vol vwant = vol_of(want);
+          const double SD = vin.maxabs() / (zf[1] * zf[2]) * (o == 0 ? 1. : (o == 1 ? zf[1] * zf[2] : zf[1]));
+          const Img d = zoom_image(in, zxy, offs.x(), offs.y(), nxy, opt);
+          VF_TRY(same_grid(grid_of(d), vwant.g, cat("zoom_image(image,zoom,x_off,y_off,size) (", option_names[o], ") grid vs 3D overload with zoom_z=1")));
+          // The 3D overload resamples z as well, with zoom_z = v_in/(v_in/1) and an offset from the recomputed origin, which
+          // are 1 and 0 only up to float rounding (STIR is compiled with -ffast-math): the two routes sample grids that
+          // differ by `shift` voxels, so they may differ by 2*shift*max; allowed: TOL_ROUTES + 8*shift.
+          const double shift_d = grid_shift(grid_of(d), vwant.g) + grid_shift(vwant.g, vin.g, true, false, false);
+          const double tol_d = TOL_ROUTES + 8 * shift_d;
+          stats().maxi("zoom: max allowed rel diff transaxial overloads vs 3D overload", tol_d);
+          if (same_index_range(grid_of(d), vwant.g))
             {
-              const Vol vtwo = vol_of(two);
+              const Vol vd = vol_of(d);
               double worst = 0;
-              for (std::size_t i = 0; i < vtwo.d.size(); ++i)
-                worst = std::max(worst, std::fabs(vtwo.d[i] - vA[o].d[i]));
-              stats().maxi("zoom: max (observed / allowed) two-step (parameter overloads) vs one call", worst / std::max(std::max(vA[o].maxabs(), S[o]), 1e-30) / tol_e);
+              for (std::size_t i = 0; i < vd.d.size(); ++i)
+                worst = std::max(worst, std::fabs(vd.d[i] - vwant.d[i]));
+              stats().maxi("zoom: max (observed / allowed) transaxial overloads vs 3D overload", worst / std::max(std::max(vwant.maxabs(), SD), 1e-30) / tol_d);
             }
-            VF_TRY(same_values(vol_of(two), vA[o], tol_e, cat("two steps (transaxial overload then z) (", option_names[o], ") vs one call"),
-                               "zoom: max rel diff two-step (parameter overloads) vs one call", S[o]));
+          VF_TRY(same_values(vol_of(d), vwant, tol_d, cat("zoom_image(image,zoom,x_off,y_off,size) (", option_names[o], ") vs 3D overload with zoom_z=1"),
+                             "zoom: max rel diff transaxial overloads vs 3D overload", SD));
+          Img dip(in);
+          zoom_image_in_place(dip, zxy, offs.x(), offs.y(), nxy, opt);
+          VF_TRY(same_grid(grid_of(dip), vwant.g, cat("zoom_image_in_place(image,zoom,x_off,y_off,size) (", option_names[o], ") grid")));
+          VF_TRY(same_values(vol_of(dip), vwant, tol_d, cat("zoom_image_in_place(image,zoom,x_off,y_off,size) (", option_names[o], ") vs 3D overload"),
+                             "zoom: max rel diff transaxial overloads vs 3D overload", SD));
+          // E1: xy with the transaxial overload, then z with the 3D in-place overload, vs one 3D call
+          Img two(dip);
+          zoom_image_in_place(two, CartesianCoordinate3D<float>(zooms.z(), 1.F, 1.F), CartesianCoordinate3D<float>(offs.z(), 0.F, 0.F),
+                              CartesianCoordinate3D<int>(sizes.z(), nxy, nxy), opt);
+          VF_TRY(same_grid(grid_of(two), gout, cat("two steps (transaxial overload then z) (", option_names[o], ") grid vs one call")));
+          // the grids of the two routes agree only up to float rounding of the recomputed origins and voxel sizes, and the
+          // second step resamples x,y once more at zoom 1 +- rounding: allowed TOL_ROUTES + 8*(shift in voxels)
+          const double shift_e = grid_shift(grid_of(two), gout) + grid_shift(grid_of(dip), grid_of(two), false, true, true)
+                                 + grid_shift(grid_of(dip), vin.g, true, false, false);
+          const double tol_e = TOL_ROUTES + 8 * shift_e;
+          stats().maxi("zoom: max allowed rel diff two-step (parameter overloads) vs one call", tol_e);
+          {
+            const Vol vtwo = vol_of(two);
+            double worst = 0;
+            for (std::size_t i = 0; i < vtwo.d.size(); ++i)
+              worst = std::max(worst, std::fabs(vtwo.d[i] - vA[o].d[i]));
+            stats().maxi("zoom: max (observed / allowed) two-step (parameter overloads) vs one call", worst / std::max(std::max(vA[o].maxabs(), S[o]), 1e-30) / tol_e);
           }
+          VF_TRY(same_values(vol_of(two), vA[o], tol_e, cat("two steps (transaxial overload then z) (", option_names[o], ") vs one call"),
+                             "zoom: max rel diff two-step (parameter overloads) vs one call", S[o]));
+        }
     }
   if (non_unit >= 2)
     stats().cls("zoom: non-unit factor on >= 2 axes");
@@ -1071,8 +1090,8 @@ gen_ssrb(Src& s, int size)
     nsegs.push_back(k);
   c["nseg"] = (nsegs.size() > 1 && s.chance(3, 4)) ? nsegs[std::size_t(s.range(1, long(nsegs.size()) - 1))] : 1;
   c["max_in_seg"] = max_in_seg;
-  if (no_exclude && s.chance(1, 15))
-    { // Finding 2: no complete output segment; SSRB.cxx:88 means to report it with error() (excluded by default)
+  if (s.chance(1, 15))
+    { // no complete output segment: SSRB.cxx reports it with error() ("No output segments")
       c["nseg"] = 2 * eff + 3;
       c["expect_error"] = true;
     }
@@ -1232,49 +1251,13 @@ check(const json& c)
     }
   catch (const stir_verif::AssertionFailure& e)
     {
-      // Finding 4 (work/notes/C15_findings.md): the four range assertions on diff_between_right_edges in
-      // overlap_interpolate.cxx (lines 148,149,251,252) carry the comment "+/-epsilon" but test without one; they fire
-      // on rounding noise of 1e-16.  A Release build computes the right result, so the case is re-run with the
-      // assertions off (all oracles still apply).  VERIF_NO_EXCLUDE=1 reports the assertion instead.
-      const std::string what = e.what();
-      const bool epsilon_assert = what.find("diff_between_right_edges") != std::string::npos && what.find("overlap_interpolate.cxx") != std::string::npos;
-      if (no_exclude || !epsilon_assert)
+      // see is_overlap_interpolate_epsilon_assertion(): the case is re-run with the assertions off (all oracles still apply)
+      if (!is_overlap_interpolate_epsilon_assertion(e))
         throw;
-      stats().cls("zoom: epsilon-less assertion of overlap_interpolate fired, re-run with assertions off (finding 4)");
-      ++stats().excluded_known;
+      stats().cls("zoom: epsilon-less assertion of overlap_interpolate fired, re-run with assertions off");
       AssertsOff guard(true);
       return check_zoom(c);
     }
-}
-
-//! Input classes that are skipped as a whole because of known findings (work/notes/C15_findings.md); a replayed case of
-//! such a class is neither pass nor fail.  VERIF_NO_EXCLUDE=1 switches this off.
-//! F1 (TOF combining) and F4 (overlap_interpolate assertions) are not skipped: the case runs with the assertions off around
-//! the affected call / for the re-run and is counted under excluded_known inside check().
-std::string
-known_signature(const json& c)
-{
-  if (no_exclude)
-    return "";
-  if (c["part"].get<std::string>() == "ssrb")
-    {
-      // F2: no complete output segment: num_segments_to_combine/2 > last processed input segment
-      const int span = c["pdi"]["span"], max_delta = c["pdi"]["max_delta"];
-      const int max_seg = span % 2 == 1 ? std::max(0, (max_delta - (span - 1) / 2 + span - 1) / span) : -1;
-      const int max_in_seg = c["max_in_seg"];
-      const int eff = max_in_seg >= 0 ? max_in_seg : max_seg;
-      if (max_seg >= 0 && c["nseg"].get<int>() / 2 > eff)
-        return "C15:F2:SSRB num_segments_to_combine/2 > last processed input segment";
-      return "";
-    }
-  // F3: transaxial overloads with "nothing to do" in x on an image whose y size differs from new_size
-  const json& im = c["img"];
-  const int ny = im["n"][1], nx = im["n"][2];
-  const bool standard = im["min"][0].get<int>() == 0 && im["min"][1].get<int>() == -(ny / 2) && im["min"][2].get<int>() == -(nx / 2);
-  if (c.value("iso_xy", false) && standard && c["zoom"][2].get<float>() == 1.F && c["off"][1].get<float>() == 0.F && c["off"][2].get<float>() == 0.F
-      && c["sizes"][2].get<int>() == nx && ny != nx)
-    return "C15:F3:zoom_image(image,zoom=1,0,0,new_size==x size) on an image with y size != x size";
-  return "";
 }
 
 bool
@@ -1352,7 +1335,6 @@ the_property()
   p.check = check;
   p.nontrivial = nontrivial;
   p.fixed_cases = fixed_cases;
-  p.known_signature = known_signature;
   p.rule = "ssrb: at least two of (segments, views, TOF bins) combined and >= 5 detector pairs; zoom: non-unit factor on >= 2 axes and a non-zero offset";
   return p;
 }
